@@ -94,6 +94,34 @@ Definition dispatch (n : Z) (args : list Z) : list Z :=
             enc_opt enc_dt (expected_2400 (y, m, d) o)
       | _ => [-1]
       end
+  | 22 =>   (* render_date: [df; y; m; d] -> [valid; n; string...; 1; trunc_date (3 ints)] *)
+      match args with
+      | [df; y; m; d] =>
+          let str := render_date (dform_of df) y m d in
+          [b2z (valid_ymd y m d); Z.of_nat (length str)] ++ str ++
+          enc_date (trunc_date (dform_of df) y m d)
+      | _ => [-1]
+      end
+  | 23 =>   (* render_time ++ render_off: [tf; comma; k; okind; oflag; oh; om; h; mi; s; us; extra...]
+               -> [wf; valid; n; string...; 1; h'; mi'; s'; us'; tz (2 ints)] *)
+      match args with
+      | tf :: comma :: k :: okind :: oflag :: oh :: om :: h :: mi :: s :: us :: extra =>
+          let ts := TS (tform_of tf) (negb (comma =? 0)) (Z.to_nat k) extra in
+          let o := off_of okind oflag oh om in
+          let str := render_time ts h mi s us ++ render_off o in
+          let '(h', mi', s', us') := trunc_time ts h mi s us in
+          [b2z (wf_tspec ts && wf_off o); b2z (valid_hmsu h mi s us); Z.of_nat (length str)] ++ str ++
+          enc_time (h', mi', s', us', tz_of o)
+      | _ => [-1]
+      end
+  | 24 =>   (* render_off: [okind; oflag; oh; om] -> [wf; n; string...; 1; tz (2 ints)] *)
+      match args with
+      | [okind; oflag; oh; om] =>
+          let o := off_of okind oflag oh om in
+          let str := render_off o in
+          [b2z (wf_off o && negb (okind =? 0)); Z.of_nat (length str)] ++ str ++ enc_tzv (tz_of o)
+      | _ => [-1]
+      end
   | _ => [-1]
   end.
 
